@@ -8,11 +8,11 @@ Inductive c03kind :=
     (* calcAudioTimeFromRef *)
 | KRecipe (nr s e D r F a : Z) (ocls : Z) (obs : list Z)
     (* calcAudioSegRecipe: [segNr; startTime; endTime; audioInStart; audioInEnd; audioInEndAfterWrap] *)
-| KSeg (nr s e D r F a : Z) (tab : list seg) (canon : list Z) (ocls : Z) (otfdt oseq : Z) (oframes : list Z)
+| KSeg (fx : bool) (nr s e D r F a : Z) (tab : list seg) (canon : list Z) (ocls : Z) (otfdt oseq : Z) (oframes : list Z)
     (* recipe + createAudioSeg: the served segment (tfdt, sequence number, source index of every frame);
        [canon] maps a source frame index to the first index with the same content ([] = identity) *)
-| KCreate (F : Z) (tab : list seg) (rc : recipe) (ocls : Z) (otfdt oseq : Z) (oframes : list Z)
-    (* createAudioSeg on an arbitrary recipe *)
+| KCreate (fx : bool) (F : Z) (tab : list seg) (rc : recipe) (ocls : Z) (otfdt oseq : Z) (oframes : list Z)
+    (* createAudioSeg on an arbitrary recipe; [fx]: which version of L115 the implementation has (see Audio.seg_loop) *)
 | KTimeline (startNr refT : Z) (entries : list (Z * Z)) (r F a : Z) (ocls : Z) (obs : list (Z * Z * Z))
     (* generateTimelineEntriesFromRef: produced entries (t or -1, d, r) *).
 
@@ -54,10 +54,10 @@ Definition case_ok (c : c03case) : bool :=
       | Ok rc => (ocls =? 0) && list_eqb Z.eqb (recipe_view rc) obs
       | m => cls m =? ocls
       end
-  | KSeg nr s e D r F a tab canon ocls otfdt oseq oframes =>
-      out_ok canon (audio_segment nr s e D r F a tab) ocls otfdt oseq oframes
-  | KCreate F tab rc ocls otfdt oseq oframes =>
-      out_ok [] (create_audio_seg F tab rc) ocls otfdt oseq oframes
+  | KSeg fx nr s e D r F a tab canon ocls otfdt oseq oframes =>
+      out_ok canon (audio_segment fx nr s e D r F a tab) ocls otfdt oseq oframes
+  | KCreate fx F tab rc ocls otfdt oseq oframes =>
+      out_ok [] (create_audio_seg fx F tab rc) ocls otfdt oseq oframes
   | KTimeline startNr refT entries r F a ocls obs =>
       match audio_timeline startNr refT entries r F a with
       | Ok l => (ocls =? 0) && list_eqb triple_eqb (map entry_view l) obs
@@ -80,8 +80,8 @@ Definition model_view (c : c03case) : Z * list Z :=
   | KTime t r F a _ _ => match calcAudioTimeFromRef t r F a with Ok v => (0, [v]) | m => (cls m, []) end
   | KRecipe nr s e D r F a _ _ =>
       match calcAudioSegRecipe nr s e D r F a with Ok rc => (0, recipe_view rc) | m => (cls m, []) end
-  | KSeg nr s e D r F a tab _ _ _ _ _ => out_view (audio_segment nr s e D r F a tab)
-  | KCreate F tab rc _ _ _ _ => out_view (create_audio_seg F tab rc)
+  | KSeg fx nr s e D r F a tab _ _ _ _ _ => out_view (audio_segment fx nr s e D r F a tab)
+  | KCreate fx F tab rc _ _ _ _ => out_view (create_audio_seg fx F tab rc)
   | KTimeline startNr refT entries r F a _ _ =>
       match audio_timeline startNr refT entries r F a with
       | Ok l => (0, concat (map (fun s => let '(a, b, c) := entry_view s in [a; b; c]) (firstn 4 l)))
